@@ -167,6 +167,7 @@ def m5(tree, layers, name, suffix, postfixes, mask_first=True):
     mask_first=False gives the variant M5' used only to recognise known finding D7."""
     suf = norm_suffix(suffix)
     consulted = []
+    seen = []          # consulted files plus sub-directories that carry the suffix (looked at, checked, but no files)
     main = None
     for layer in reversed(layers):
         p = norm("%s/%s%s" % (layer, name, suf))
@@ -175,6 +176,7 @@ def m5(tree, layers, name, suffix, postfixes, mask_first=True):
             break
     if main:
         consulted.append(main)
+        seen.append(main)
     if postfixes is None:
         postfixes = [suf + ".d"]
     for layer in layers:
@@ -186,6 +188,9 @@ def m5(tree, layers, name, suffix, postfixes, mask_first=True):
             for nm in names:
                 if len(nm) > len(suf) and nm.endswith(suf) and tree.is_fileish(d + "/" + nm):
                     consulted.append(d + "/" + nm)
+                    seen.append(d + "/" + nm)
+                elif suf and len(nm) > len(suf) and nm.endswith(suf) and tree.is_dir(d + "/" + nm):
+                    seen.append(d + "/" + nm)
     # masking works on positions: a directory may be listed twice (A:B:A), then its files are consulted twice
     # and the copy at the later position is the one that counts
     masked_idx = set()
@@ -207,7 +212,7 @@ def m5(tree, layers, name, suffix, postfixes, mask_first=True):
     for i, p in enumerate(consulted):
         if i in masked_idx and p not in live and p not in masked:
             masked.append(p)
-    return {"consulted": consulted, "masked": masked, "merged": merged if merged is not None else Conf(),
+    return {"consulted": consulted, "seen": seen, "masked": masked, "merged": merged if merged is not None else Conf(),
             "nofile": len(consulted) == 0, "main": main}
 
 
